@@ -151,6 +151,7 @@ RECURSIVE CCns(_, _)
 CCns(c, ks) == IF ks = {} THEN c ELSE LET k == CHOOSE x \in ks : TRUE IN CCns(CCn(c, k), ks \ {k})
 CCompute(c, dd) == CCns(CNft(c), CnUpTo[dd])
 FormContent(f, c) == IF f = "physical" THEN "-" ELSE NftContent(c)
+FreshContent(f)   == IF f = "physical" THEN "-" ELSE "own"
 CHam(c, d, f) == IF Has(c, HamKey(d, f)) THEN c
                  ELSE LET c1 == CCm(c, d)
                           dd == CmDeg(c1, d)
@@ -207,8 +208,8 @@ Energy       == MemoRead("Energy", <<>>, EnKey, CEn(pc), <<"energy">>)
 Jacobi       == MemoRead("Jacobi", <<>>, JacKey, CJac(pc), <<"jacobi">>)
 \* point.dynamics.scale_factor(lambda1, omega1) [collinear]  /  scale_factor(idx) [triangular]
 ScaleFactor(a) == MemoRead("ScaleFactor", <<a>>, SfKey(a), CSf(pc, a), <<"sf", a>>)
-Hamiltonian(d, f) == Collinear /\ MemoRead("Hamiltonian", <<d, f>>, HamKey(d, f), CHam(pc, d, f), <<"ham", d, f, FormContent(f, {<<NftKey, <<"nft", "own">>>>})>>)
-HamSys(d, f)      == Collinear /\ MemoRead("HamSys", <<d, f>>, HsKey(d, f), CHs(pc, d, f), <<"hamsys", d, f, FormContent(f, {<<NftKey, <<"nft", "own">>>>})>>)
+Hamiltonian(d, f) == Collinear /\ MemoRead("Hamiltonian", <<d, f>>, HamKey(d, f), CHam(pc, d, f), <<"ham", d, f, FreshContent(f)>>)
+HamSys(d, f)      == Collinear /\ MemoRead("HamSys", <<d, f>>, HsKey(d, f), CHs(pc, d, f), <<"hamsys", d, f, FreshContent(f)>>)
 GenFuncs(d)       == Collinear /\ MemoRead("GenFuncs", <<d>>, GfKey(d), CGf(pc, d), <<"gf", d, "own">>)
 
 \* point.eigenvalues / is_stable -> compute_stability() with the options and config in force
@@ -239,8 +240,12 @@ RetargetCM(d, d2) ==
 
 \* point.create_orbit("lyapunov", amplitude_x=...).initial_state : the analytic guess reads position, cn(2), linear_modes
 CreateOrbit ==
-    /\ Collinear
-    /\ MemoRead("CreateOrbit", <<>>, PosKey, CLm(CCn(CPos(pc), "k2")), <<"position">>)
+    LET c2 == CLm(CCn(CPos(pc), "k2"))
+    IN  /\ Collinear /\ "CreateOrbit" \in Enabled
+        /\ pc' = c2
+        /\ Record("CreateOrbit", <<>>, Val(<<"guess", Lookup(c2, PosKey), Lookup(c2, CnKey("k2")), Lookup(c2, LmKey)>>),
+                  Val(<<"guess", <<"position">>, <<"cn", "k2">>, <<"linear_modes">>>>), HM(Has(pc, PosKey)))
+        /\ UNCHANGED Attr
 
 \* point.dynamics.eigendecomposition_options (getter) / = value (setter: NO invalidation)
 ReadOptions ==
